@@ -165,26 +165,37 @@ inductive Def where
   | builtin
 deriving Repr, DecidableEq, Inhabited
 
-/-- the module's value table (`ModuleScope::values`, an `IndexMap`): `(name, index)`; `insert`
-replaces the value of an existing key in place -/
-def insertVal : List (Name × Nat) → Name → Nat → List (Name × Nat)
+/-- an entry of the module's value table (`ModuleScope::values`): a function / constant /
+constructor (by declaration index), or — because unqualified value imports insert *every* public
+declaration of the imported name — a type or type alias, which `resolve_name` and
+`values_names_in_scope` skip -/
+abbrev ValEntry := Option Nat
+
+/-- `IndexMap::insert`: replaces the value of an existing key in place -/
+def insertVal : List (Name × ValEntry) → Name → ValEntry → List (Name × ValEntry)
   | [], n, v => [(n, v)]
   | (k, w) :: r, n, v => if k = n then (k, v) :: r else (k, w) :: insertVal r n v
 
-def buildValues (decls : List (Name × Nat)) : List (Name × Nat) :=
+/-- the table after inserting the declarations in `module_scope_with_map_query`'s order
+(unqualified imports, functions, constants, constructors) -/
+def buildValues (decls : List (Name × ValEntry)) : List (Name × ValEntry) :=
   decls.foldl (fun acc d => insertVal acc d.1 d.2) []
 
+def findVal : List (Name × ValEntry) → Name → Option ValEntry
+  | [], _ => none
+  | (n, v) :: r, x => if n = x then some v else findVal r x
+
 /-- `Resolver::resolve_name` -/
-def resolveName (S : Scopes) (values : List (Name × Nat)) (builtins : List Name) (scope : Option Nat)
+def resolveName (S : Scopes) (values : List (Name × ValEntry)) (builtins : List Name) (scope : Option Nat)
     (name : Name) : Option Def :=
   match resolveChain S.arena S.arena.length scope name with
   | some id => some (.local_ id)
   | none =>
-    match findEntry values name with
-    | some i => some (.modVal i)
-    | none => if builtins.contains name then some .builtin else none
+    match findVal values name with
+    | some (some i) => some (.modVal i)
+    | _ => if builtins.contains name then some .builtin else none
 
-def resolveOcc (S : Scopes) (values : List (Name × Nat)) (builtins : List Name) (occ : Nat) (name : Name) :
+def resolveOcc (S : Scopes) (values : List (Name × ValEntry)) (builtins : List Name) (occ : Nat) (name : Name) :
     Option Def :=
   resolveName S values builtins (lookupAssoc S.byOcc occ) name
 
@@ -201,8 +212,10 @@ def addName (acc : List (Name × Def)) (n : Name) (d : Def) : List (Name × Def)
   if acc.any (fun p => p.1 = n) then acc else acc ++ [(n, d)]
 
 /-- `Resolver::values_names_in_scope`: first occurrence of a name wins -/
-def namesInScope (S : Scopes) (values : List (Name × Nat)) (scope : Option Nat) : List (Name × Def) :=
+def namesInScope (S : Scopes) (values : List (Name × ValEntry)) (scope : Option Nat) : List (Name × Def) :=
   let locals := (chainEntries S.arena S.arena.length scope).foldl (fun acc e => addName acc e.1 (.local_ e.2)) []
-  values.foldl (fun acc v => addName acc v.1 (.modVal v.2)) locals
+  values.foldl (fun acc v => match v.2 with
+    | some i => addName acc v.1 (.modVal i)
+    | none => acc) locals
 
 end Glas.Scope
